@@ -419,6 +419,10 @@ pub fn accepted(m: &[u32]) -> Option<(u32, u32)> {
         assume(drawn != 0);
         return Some((df, drawn));
     }
+    // AA formats (DF11/17/18): a frame whose AA field is zero is dropped by the reader; keep the domain to
+    // accepted frames so that a counterexample also replays natively (where the real get_icao reads AA)
+    #[cfg(kani)]
+    assume(bits(m, 9, 32) != 0);
     let icao = get_icao(m, df)?;
     Some((df, icao))
 }
